@@ -28,7 +28,7 @@
    Not represented: several objects sharing classes (descriptor state is per
    class in Python; every hierarchy here has one object), plain attributes
    shadowing a DBusProperty, decorated methods (they only add method entries
-   to the caches), un-export. *)
+   to the caches). *)
 From Tx Require Import Lib.Base Lib.Sexp Model.PyVal Model.Marshal.
 Local Open Scope N_scope.
 
@@ -213,19 +213,26 @@ Definition key_eqb (cf : cfg) (a b : key) : bool :=
   if legacy_key cf then str_eqb (fst a ++ snd a) (fst b ++ snd b)
   else str_eqb (fst a) (fst b) && str_eqb (snd a) (snd b).
 
+(* Connections are numbered; connection c has its own DBusObjectHandler with its
+   own `exports` table.  The object itself keeps ONE handler reference
+   (`_objectHandler`): exportObject overwrites it, unexportObject leaves it alone. *)
 Record state := mkS {
   s_vals : list (key * pyval);       (* instance._dbusProperties *)
-  s_exported : bool;                 (* _objectHandler set and the object in handler.exports *)
+  s_exps : list nat;                 (* connections whose handler.exports holds the object *)
+  s_handler : option nat;            (* obj._objectHandler: the connection of the latest exportObject *)
   s_built : nat                      (* classes whose _dbusIfaceCache exists (read only under legacy_lazy) *)
 }.
-Definition init : state := mkS [] false 0.
+Definition init : state := mkS [] [] None 0.
+
+Definition exp_on (st : state) (c : nat) : bool := existsb (Nat.eqb c) (s_exps st).
 
 Inductive op :=
 | OAssign (attr : str) (v : pyval)        (* obj.attr = v *)
-| OExport                                  (* handler.exportObject(obj) *)
-| OGet (i n : str)                         (* org.freedesktop.DBus.Properties.Get(i, n) *)
-| OSet (i n : str) (v : pyval)             (* Set(i, n, variant v) *)
-| OGetAll (i : str).                       (* GetAll(i) *)
+| OExport (c : nat)                        (* handler_c.exportObject(obj) *)
+| OUnexport (c : nat)                      (* handler_c.unexportObject(path) *)
+| OGet (c : nat) (i n : str)               (* org.freedesktop.DBus.Properties.Get(i, n) arriving on connection c *)
+| OSet (c : nat) (i n : str) (v : pyval)   (* Set(i, n, variant v) arriving on connection c *)
+| OGetAll (c : nat) (i : str).             (* GetAll(i) arriving on connection c *)
 
 Inductive reply :=
 | RNone                                    (* local operation completed *)
@@ -235,9 +242,11 @@ Inductive reply :=
 | ROk                                      (* method return, empty body *)
 | RErr.                                    (* error reply *)
 
+(* messages handed to connection c's sendMessage *)
 Inductive signal :=
-| SigChanged (i n : str) (sg : str) (v : pyval)                (* PropertiesChanged(i, {n: v}, []) *)
-| SigAdded (d : list (str * list (str * (str * pyval)))).      (* InterfacesAdded(path, {iface: {name: v}}) *)
+| SigChanged (c : nat) (i n : str) (sg : str) (v : pyval)                (* PropertiesChanged(i, {n: v}, []) *)
+| SigAdded (c : nat) (d : list (str * list (str * (str * pyval))))       (* InterfacesAdded(path, {iface: {name: v}}) *)
+| SigRemoved (c : nat) (names : list str).                               (* InterfacesRemoved(path, [iface names]) *)
 
 Section Step.
   Variable cf : cfg.
@@ -270,7 +279,7 @@ Section Step.
     end.
 
   Definition store (st : state) (k : key) (v : pyval) : state :=
-    mkS (alist_set (key_eqb cf) k v (s_vals st)) (s_exported st) (s_built st).
+    mkS (alist_set (key_eqb cf) k v (s_vals st)) (s_exps st) (s_handler st) (s_built st).
 
   (* the tail of DBusProperty.__set__ once iprop is known: store, then emit *)
   Definition set_resolved (st : state) (b : bind) (v : pyval) : state * bool * list signal :=
@@ -283,12 +292,14 @@ Section Step.
         match (if legacy_sigtype cf then Ok v else wrap_decl (p_sig (b_prop b)) v) with
         | Err _ => (st', false, [])              (* the exception escapes after the store *)
         | Ok w =>
-            if s_exported st then
-              match wire_variant w with
-              | Ok (sg, x) => (st', true, [SigChanged (b_iface b) (b_name b) sg x])
-              | Err _ => (st', false, [])
-              end
-            else (st', true, [])
+            match s_handler st with
+            | Some c =>
+                match wire_variant w with
+                | Ok (sg, x) => (st', true, [SigChanged c (b_iface b) (b_name b) sg x])
+                | Err _ => (st', false, [])
+                end
+            | None => (st', true, [])
+            end
         end
     | _ => (st', true, [])
     end.
@@ -302,7 +313,7 @@ Section Step.
           (* self.iprop is None: instance._getProperty('', self.pname) builds the
              caches up to the first class that has a property of that name *)
           let built := Nat.max (s_built st) (search_visited caches [] (b_name b)) in
-          let st1 := mkS (s_vals st) (s_exported st) built in
+          let st1 := mkS (s_vals st) (s_exps st) (s_handler st) built in
           if Nat.ltb k built then set_resolved st1 b v
           else if b_explicit b
                then (store st1 (key_of b) v, false, [])   (* stored, then None.emits: AttributeError *)
@@ -311,7 +322,7 @@ Section Step.
     end.
 
   Definition all_built (st : state) : state :=
-    mkS (s_vals st) (s_exported st) (Nat.max (s_built st) (length bs)).
+    mkS (s_vals st) (s_exps st) (s_handler st) (Nat.max (s_built st) (length bs)).
 
   (* _dbus_PropertyGet, then the reply body marshalled as a variant *)
   Definition prop_get (st : state) (i n : str) : reply :=
@@ -386,21 +397,32 @@ Section Step.
   (* exportObject: table and handler first, then
      i = {}; for iface in getInterfaces(): i[iface.name] = getAllProperties(iface.name);
      InterfacesAdded is marshalled and sent *)
-  Definition export (st : state) : state * reply * list signal :=
-    let st' := mkS (s_vals st) true (Nat.max (s_built st) (length bs)) in
+  Definition export (c : nat) (st : state) : state * reply * list signal :=
+    let st' := mkS (s_vals st) (c :: s_exps st) (Some c) (Nat.max (s_built st) (length bs)) in
     match fold_left (fun acc i => do d0 <- acc; do d <- get_all st' i; do w <- wire_dict d;
                                   Ok (alist_set str_eqb i w d0)) inames (Ok []) with
-    | Ok d => (st', RNone, [SigAdded d])
+    | Ok d => (st', RNone, [SigAdded c d])
     | Err _ => (st', RRaise, [])
     end.
 
+  (* unexportObject: o = self.exports[path] (KeyError), del, InterfacesRemoved with the
+     interface names; the object's _objectHandler is not touched *)
+  Definition unexport (c : nat) (st : state) : state * reply * list signal :=
+    if exp_on st c then
+      (mkS (s_vals st) (filter (fun x => negb (Nat.eqb x c)) (s_exps st)) (s_handler st) (s_built st),
+       RNone, [SigRemoved c inames])
+    else (st, RRaise, []).
+
+  (* a call arriving on connection c reaches the object iff handler_c.exports holds it
+     (UnknownObject error reply otherwise) *)
   Definition step (st : state) (o : op) : state * reply * list signal :=
     match o with
     | OAssign a v => let '(st', ok, sigs) := assign st a v in (st', if ok then RNone else RRaise, sigs)
-    | OExport => export st
-    | OGet i n => if s_exported st then (all_built st, prop_get st i n, []) else (st, RErr, [])
-    | OSet i n v => if s_exported st then prop_set (all_built st) i n v else (st, RErr, [])
-    | OGetAll i => if s_exported st then (all_built st, prop_get_all st i, []) else (st, RErr, [])
+    | OExport c => export c st
+    | OUnexport c => unexport c st
+    | OGet c i n => if exp_on st c then (all_built st, prop_get st i n, []) else (st, RErr, [])
+    | OSet c i n v => if exp_on st c then prop_set (all_built st) i n v else (st, RErr, [])
+    | OGetAll c i => if exp_on st c then (all_built st, prop_get_all st i, []) else (st, RErr, [])
     end.
 
   Fixpoint run_from (st : state) (h : list op) : state :=
